@@ -215,6 +215,32 @@ func (m *vpMesh) leftovers() []string {
 	return out
 }
 
+// spreadStreamIDs moves the stream-identifier counters of all connections apart (every
+// connection end gets its own range), so that no two tunnels anywhere in the mesh share an
+// identifier. Tables keyed by the bare identifier (listed finding C16/C17
+// stream-id-collision-across-peers) then cannot confuse tunnels of different connections -
+// not even through a late frame of a tunnel that has already ended.
+func (m *vpMesh) spreadStreamIDs() {
+	m.mu.Lock()
+	order := append([]string(nil), m.order...)
+	m.mu.Unlock()
+	idx := 0
+	for _, n := range order {
+		a := m.agents[n]
+		for _, o := range order {
+			if o == n {
+				continue
+			}
+			if c := a.peerMgr.GetPeer(m.agents[o].ID()); c != nil {
+				idx++
+				for k := 0; k < idx*400; k++ {
+					c.NextStreamID()
+				}
+			}
+		}
+	}
+}
+
 // waitQuiet waits until no agent holds per-stream bookkeeping.
 func (m *vpMesh) waitQuiet(d time.Duration) []string {
 	deadline := time.Now().Add(d)
